@@ -350,6 +350,12 @@ func (s *grpcServer) fillDirectories(ctx context.Context, resp *pb.GetTreeRespon
 	// Recursively append all the child dirs.
 	for _, dirNode := range dir.Directories {
 
+		if dirNode == nil || dirNode.Digest == nil {
+			// A stored Directory is only as good as whoever uploaded it.
+			s.accessLogger.Printf("GRPC GETTREEREQUEST BAD DIRECTORY NODE: missing digest")
+			continue
+		}
+
 		err := s.validateHash(dirNode.Digest.Hash, dirNode.Digest.SizeBytes, errorPrefix)
 		if err != nil {
 			return err
